@@ -92,7 +92,7 @@ theorem C06_complete (i : Input) (P : Program) (hwf : wf i = true) (hm : model i
   have w := alwf_of_ok (wf_wf0 hwf) hal
   have cv := alcov_of_ok hal
   have nl : NoLib i := wf_nolib hwf
-  obtain ⟨_, _, hcover⟩ := wf_iff i (wf_wf0 hwf)
+  obtain ⟨_, hcover⟩ := wf_iff i (wf_wf0 hwf)
   unfold eligible at he
   cases hfb : findGlyph i b with
   | none => rw [hfb] at he; simp at he
@@ -293,6 +293,55 @@ theorem C06_candidate_order_partial (km : List (String × String)) :
       singleGroups km = ks.filterMap (fun k => (alookup k km).map (fun c => [c])) ∧
       ∀ grp ∈ singleGroups km, ∃ c, grp = [c] :=
   ⟨sortStr (km.map (·.1)), sortStr_sorted _, sortStr_perm _, rfl, fun _ h => mem_singleGroups h⟩
+
+/-- **C06_classes_injective**: distinct anchor keys get distinct mark classes — also when ast.makeFeaClassName reduces their names
+    to the same legal class name ('top-alt' / 'topalt'): the key → class map of the writer is injective, and no two mark
+    classes have the same name. -/
+theorem C06_classes_injective (i : Input) (P : Program) (hwf : wf0 i = true) (al : AList) (hal : anchorLists i = .ok al)
+    (hP : P = build i al) :
+    (∀ k1 k2 c, alookup k1 (kmOf i al) = some c → alookup k2 (kmOf i al) = some c → k1 = k2) ∧
+    (P.classes.map (·.1)).Nodup := by
+  have w := alwf_of_ok hwf hal
+  subst hP
+  refine ⟨?_, clsOf_names_nodup w⟩
+  intro k1 k2 c h1 h2
+  have m1 := alookup_some_mem h1
+  have m2 := alookup_some_mem h2
+  rw [kmOf_eq w] at m1 m2
+  obtain ⟨n1, hn1, e1⟩ := mem_map.mp m1
+  obtain ⟨n2, hn2, e2⟩ := mem_map.mp m2
+  simp only [Prod.mk.injEq] at e1 e2
+  have : n1 = n2 := (makeClasses_meOf w).2 n1 hn1 n2 hn2 (by rw [e1.2, e2.2])
+  rw [← e1.1, ← e2.1, this]
+
+/-- the group loop of _makeMarkClassDefinitions over an explicit list of mark anchor names: the repaired one and the old one -/
+def classesOver (me : AList) (ns : List String) : ClsState := (ns.foldl (groupStep me) (⟨[], []⟩, [])).1
+def classesOverOld (me : AList) (ns : List String) : ClsState :=
+  ns.foldl (fun st n =>
+    (defineGroup (groupOf me n) (groupClassName (groupOf me n) (sanitize ("MC" ++ n)) st.classes) st).1) ⟨[], []⟩
+
+/-- the witness: mark `m1` with `_top-alt` at (10, 20), mark `m2` with `_topalt` at (30, 40) -/
+def collisionMarks : AList :=
+  [("m1", [⟨"_top-alt", 10, 20, true, "top-alt", none, none⟩]), ("m2", [⟨"_topalt", 30, 40, true, "topalt", none, none⟩])]
+
+/-- **C06_collision_old_counterexample** (repaired defect, kept as a labelled counterexample over the OLD group loop
+    `classesOverOld` = `makeClassesFromOld` on the sorted names): 'top-alt' and 'topalt' both sanitise to MC_topalt; the old loop
+    put `m1` and `m2` into ONE class and mapped both keys to it — so a base with `top-alt` (100, 500) and `topalt` (120, 520) got
+    `m1` attached through the later lookup at (120−10, 520−20) = (110, 500) instead of (90, 480), as observed on the
+    unrepaired code; the repaired loop gives the second name (in sorted order '_top-alt' < '_topalt') the class MC_topalt_1. -/
+theorem C06_collision_old_counterexample :
+    (classesOverOld collisionMarks ["_top-alt", "_topalt"]).classes =
+      [("MC_topalt", [⟨"m1", 10, 20⟩, ⟨"m2", 30, 40⟩])] ∧
+    (classesOverOld collisionMarks ["_top-alt", "_topalt"]).keyMap = [("top-alt", "MC_topalt"), ("topalt", "MC_topalt")] ∧
+    (classesOver collisionMarks ["_top-alt", "_topalt"]).classes =
+      [("MC_topalt", [⟨"m1", 10, 20⟩]), ("MC_topalt_1", [⟨"m2", 30, 40⟩])] ∧
+    (classesOver collisionMarks ["_top-alt", "_topalt"]).keyMap = [("top-alt", "MC_topalt"), ("topalt", "MC_topalt_1")] := by
+  refine ⟨?_, ?_, ?_, ?_⟩ <;> decide +kernel
+
+/-- the loops over the sorted group names are the model's functions -/
+theorem classesOver_eq (me : AList) :
+    makeClassesFrom [] me = classesOver me (groupNames me) ∧ makeClassesFromOld [] me = classesOverOld me (groupNames me) :=
+  ⟨rfl, rfl⟩
 
 /-- **C06_objectLibs_old_counterexample** (repaired defect, kept as a labelled counterexample over the OLD loop body
     `namedAnchorOld`): before the repair of `_getAnchorLists` an anchor with an identifier on a glyph without
